@@ -39,16 +39,17 @@ def _spec(desc):
 
 def _task(item):
     name, desc = item
+    name = name.split('.')[-1]
     import thermosteam  # noqa
     sp = sys.modules['thermosteam.base.sparse']
     from engine.vcg import kernels
     out = {'name': name, 'desc': list(desc)}
     try:
-        owner = sp
-        for part in (desc[-1] if desc[0] == 'path' else 'SparseVector').split('.'):
-            owner = getattr(owner, part)
+        owner = getattr(sp, desc[-1] if (desc[0] == 'more' and desc[1] == 'logical') else 'SparseVector')
         func = getattr(owner, name)
-        r = kernels.verify(func, _spec(desc), f'thermosteam.base.sparse:SparseVector.{name}')
+        r = kernels.verify(func, _spec(desc), f'thermosteam.base.sparse:{owner.__name__}.{name}')
+        out['owner'] = owner.__name__
+        if owner.__name__ != 'SparseVector': out['name'] = 'SLV.' + name
         out.update(paths=r['paths'], unsupported=r['unsupported'], obligations=r['obligations'],
                    solver_s=r['solver_s'], wall_s=r.get('wall_s', 0))
         cex = []
@@ -64,6 +65,7 @@ def _task(item):
 
 
 def replay_native(name, desc, inputs):
+    name = name.split('.')[-1]
     """Run the real kernel on concrete inputs and evaluate the contract at run time.  Returns list of failed clauses."""
     from engine.vcg import kernels
     return kernels.native_check(name, desc, inputs)
@@ -86,7 +88,7 @@ def run(prop, tier, jobs, seed):
     viol = 0
     newbase = {}
     for r in res:
-        fq = f"thermosteam.base.sparse:SparseVector.{r['name']}"
+        fq = f"thermosteam.base.sparse:{r.get('owner', 'SparseVector')}.{r['name']}"
         if r.get('error'):
             print(f"ENGINE-ERROR C09/U/{r['name']}: {r['error']}"); status = max(status, 3); continue
         if r['unsupported']:
